@@ -7,7 +7,8 @@ from props import C05
 LEVEL = "proof"
 G_UNITS = {"cmp_flags": ["lemma_c02_accepted_is_coherent", "HelperAttributesForCompareOp::is_ignore", "HelperAttributesForCompareOp::is_reverse",
                          "HelperAttributesForCompareOp::bad_attr", "CompareOp::is_effects_to"],
-           "cmp_select": ["build_partial_eq_expr", "build_eq_expr", "build_partial_ord_expr", "build_ord_expr", "build_hash_expr"]}
+           "cmp_select": ["build_partial_eq_expr", "build_eq_expr", "build_partial_ord_expr", "build_ord_expr", "build_hash_expr"],
+           "cmp_bodies": ["build_partial_eq_body", "build_eq_body", "build_partial_ord_body", "build_ord_body", "build_hash_body", "build_compare_op"]}
 FULL = ["PartialEq", "Eq", "PartialOrd", "Ord", "Hash"]
 
 
